@@ -115,6 +115,7 @@ type c17Build struct {
 	LenAdd int             `json:"lenadd"` // added to the Length field
 	LenW   int             `json:"lenw"`   // width of the Length varint (default 2)
 	NoTok  bool            `json:"notok"`  // omit the token field
+	Sni    *string         `json:"sni"`    // the server name in the ClientHello the frames were cut from (absent: none)
 }
 
 type c17Case struct {
@@ -574,6 +575,97 @@ func c17Oracle(data []byte, res map[string]any) {
 	}
 }
 
+// ---------------------------------------------------------------- reference reading of the CRYPTO stream a datagram carries
+
+type c17RefFrame struct {
+	off  uint64
+	data []byte
+}
+
+// c17RefVarint: RFC 9000 section 16, written out here (not the library the code under test uses)
+func c17RefVarint(b []byte) (uint64, int, bool) {
+	if len(b) == 0 {
+		return 0, 0, false
+	}
+	n := 1 << (b[0] >> 6)
+	if len(b) < n {
+		return 0, 0, false
+	}
+	v := uint64(b[0] & 0x3f)
+	for i := 1; i < n; i++ {
+		v = v<<8 | uint64(b[i])
+	}
+	return v, n, true
+}
+
+// c17RefFrames walks the plaintext of an Initial (as opened by c17Oracle, independently of the code under
+// test): PADDING and PING are skipped, CRYPTO frames collected; anything else, or a frame that does not fit,
+// makes the packet unusable for sniffing.
+func c17RefFrames(pt []byte) ([]c17RefFrame, bool) {
+	var frs []c17RefFrame
+	for len(pt) > 0 {
+		typ, n, ok := c17RefVarint(pt)
+		if !ok {
+			return nil, false
+		}
+		pt = pt[n:]
+		if typ == 0 || typ == 1 {
+			continue
+		}
+		if typ != 6 {
+			return nil, false
+		}
+		off, n1, ok1 := c17RefVarint(pt)
+		if !ok1 {
+			return nil, false
+		}
+		ln, n2, ok2 := c17RefVarint(pt[n1:])
+		if !ok2 || ln > uint64(len(pt)-n1-n2) {
+			return nil, false
+		}
+		pt = pt[n1+n2:]
+		frs = append(frs, c17RefFrame{off, append([]byte(nil), pt[:ln]...)})
+		pt = pt[ln:]
+	}
+	return frs, true
+}
+
+// c17RefStream: the stretch of the CRYPTO stream that is really present in the datagram.
+// One frame: its data.  Several frames: they must cover the stream from offset 0 to the highest end without a
+// hole (overlaps that agree are fine); hole = [from, to) is the first stretch that is in no frame.
+// present == nil: nothing usable (no frame, a hole, overlapping frames that disagree).
+func c17RefStream(frs []c17RefFrame) (present []byte, hole bool, from, to uint64) {
+	if len(frs) == 0 {
+		return nil, false, 0, 0
+	}
+	if len(frs) == 1 {
+		return frs[0].data, false, 0, 0
+	}
+	s := append([]c17RefFrame(nil), frs...)
+	for i := 1; i < len(s); i++ { // insertion sort by offset
+		for j := i; j > 0 && s[j].off < s[j-1].off; j-- {
+			s[j], s[j-1] = s[j-1], s[j]
+		}
+	}
+	var run []byte
+	for _, f := range s {
+		if f.off > uint64(len(run)) {
+			return nil, true, uint64(len(run)), f.off
+		}
+		for i, x := range f.data {
+			p := f.off + uint64(i)
+			if p < uint64(len(run)) {
+				if run[p] != x {
+					return nil, false, 0, 0
+				}
+			} else {
+				run = append(run, x)
+			}
+		}
+	}
+	return run, false, 0, 0
+}
+
 func c17UDP(c c17Case, res map[string]any) {
 	var data []byte
 	if c.Build != nil {
@@ -657,6 +749,27 @@ func c17UDP(c c17Case, res map[string]any) {
 		}
 	}
 	c17Oracle(orig, res)
+	// reference answer: the server name in the CRYPTO bytes this datagram really carries, from the harness's own
+	// opening of the packet and its own walk over the frames (nothing of the code under test involved)
+	var refAllowed *string
+	refHole, refFrom, refTo, refOpened := false, uint64(0), uint64(0), false
+	if aok, _ := res["a_ok"].(bool); aok {
+		refOpened = true
+		if frs, fok := c17RefFrames(vUnhex(res["a_out"].(string))); fok {
+			var present []byte
+			present, refHole, refFrom, refTo = c17RefStream(frs)
+			res["ref_frames"] = len(frs)
+			if refHole {
+				res["ref_hole"] = []uint64{refFrom, refTo}
+			}
+			if len(present) >= 4 && present[0] == 1 {
+				if s, ok2 := c17SNI(present); ok2 && s != "" {
+					refAllowed = &s
+					res["ref_sni"] = vHex([]byte(s))
+				}
+			}
+		}
+	}
 	var allowed *string
 	if plOK {
 		if s, ok2 := c17SNI(plRef); ok2 {
@@ -704,6 +817,33 @@ func c17UDP(c c17Case, res map[string]any) {
 				fail("address rewritten although no server name is present in the packet")
 			} else if addr != net.JoinHostPort(*allowed, port0) {
 				fail("address rewritten to something else than the server name present")
+			}
+			// ... and against the reference reading of the datagram
+			newHost := strings.TrimSuffix(addr, ":"+port0)
+			detail := func(d string) { res["detail"] = "rewritten to " + strconv.Quote(newHost) + ": " + d }
+			switch {
+			case !refOpened:
+				detail("the harness's own opening of the datagram fails")
+				fail("address rewritten although the datagram does not open as a QUIC Initial")
+			case refHole:
+				detail("bytes " + strconv.FormatUint(refFrom, 10) + ".." + strconv.FormatUint(refTo, 10) + " of the CRYPTO stream are in no frame of the datagram")
+				fail("address rewritten from truncated input: the CRYPTO frames of the datagram leave a hole below the highest frame")
+			case refAllowed == nil:
+				detail("no ClientHello with a server name in the CRYPTO bytes present")
+				fail("address rewritten although the CRYPTO bytes the datagram carries hold no server name")
+			case addr != net.JoinHostPort(*refAllowed, port0):
+				detail("the CRYPTO bytes present name " + strconv.Quote(*refAllowed))
+				fail("address rewritten to something else than the server name in the CRYPTO bytes the datagram carries")
+			}
+			if c.Build != nil && (c.Build.Sni == nil || addr != net.JoinHostPort(*c.Build.Sni, port0)) {
+				want := "no server name"
+				if c.Build.Sni != nil {
+					want = strconv.Quote(*c.Build.Sni)
+				}
+				if _, has := res["detail"]; !has {
+					detail("the ClientHello the harness cut the frames from names " + want)
+				}
+				fail("address rewritten to something else than the server name of the ClientHello the harness cut the frames from")
 			}
 		}
 	}
